@@ -14,7 +14,7 @@ EXEMPT = {
 
 def run(ctx):
     fx = ctx.facts("default")
-    fixtures.run(ctx, ['errdead', 'tasks', 'inflight', 'lockorder', 'shared'])
+    fixtures.run(ctx, ['errdead', 'tasks', 'inflight', 'lockorder', 'shared', 'flatten'])
     witness.run_dir(ctx, "W18", "C18")
     ctx.floor("W18.witnesses", 2)
     queue.run(ctx, fx, "concurrency::work_stealing::WorkStealingQueue", "src/concurrency/work_stealing.rs",
@@ -41,6 +41,8 @@ def run(ctx):
     # pieces produced by spawned tasks are not gathered through a lock-guarded push (completion order)
     order.shared_accumulator(ctx, fx, [f for f in fx.files() if f.startswith('src/concurrency/')])
     ctx.floor('R-SEQ.shared.parallel_fns', 5)
+    # no flatten()/filter_map(Result::ok) over an iterator of task results (zero sites on the pinned tree)
+    errdead.no_result_flatten(ctx, fx, [f for f in fx.files() if f.startswith('src/concurrency/')])
     order.sequence_order(ctx, fx, ["src/concurrency/pipeline.rs", "src/concurrency/fiber_pool.rs", "src/concurrency/mod.rs",
                                    "src/concurrency/fiber_aio.rs", "src/concurrency/fiber_yield.rs",
                                    "src/concurrency/async_blob_store.rs"])
